@@ -55,13 +55,13 @@ REC = {}
 
 PAGES = {'short': b'oops', 'empty': b'', 'long': b'E' * 600, 'str': 'o\xf6ps'.encode('utf-8'),
          'iter': [b'oo', b'', 'p\xe9s'.encode('utf-8')]}
-TMPL_PAGES = ('tmpl', 'raise', 'int')     # kinds that end in the built-in template
+TMPL_PAGES = ('tmpl', 'raise', 'int', 'file')     # kinds that end in a template the model does not know
 CTS = {'html': 'text/html', 'plain': 'text/plain', 'json': 'application/json',
-       'octet': 'application/octet-stream'}
+       'octet': 'application/octet-stream', 'xml': 'text/xml'}
 AE = {'-': None, 'gzip': 'gzip', 'xgzip': 'x-gzip;q=0.5', 'identity': 'identity', 'gzipq0': 'gzip;q=0',
       'other': 'compress', 'idq0': 'identity;q=0'}
 AC = {'-': None, 'utf8': 'utf-8', 'latin1': 'iso-8859-1', 'ascii': 'us-ascii', 'star': '*',
-      'utf16': 'utf-16', 'bogus': 'x-nosuch'}
+      'ascii2': 'us-ascii, us-ascii;q=0.5', 'utf16': 'utf-16', 'bogus': 'x-nosuch'}
 
 
 def parse_body(s):
@@ -73,7 +73,17 @@ def parse_body(s):
         elif tok[0] == 't':
             chunks.append(('t', ''.join(chr(int(x)) for x in tok[1:].split('.') if x)))
         elif tok[0] == 'n':
-            chunks.append(('n', [bytes.fromhex(x) for x in tok[1:].split('/') if x != '']))
+            leaves = []
+            for x in tok[1:].split('/'):
+                if x == '':
+                    continue
+                if x == 'R':
+                    leaves.append(('r', None))
+                elif x[0] == 'T':
+                    leaves.append(('t', ''.join(chr(int(y)) for y in x[1:].split('.') if y)))
+                else:
+                    leaves.append(('b', bytes.fromhex(x)))
+            chunks.append(('n', leaves))
         elif tok[0] == 'r':
             chunks.append(('r', None))
         else:
@@ -85,19 +95,24 @@ class _Boom(Exception):
     pass
 
 
+def _nest(leaves):
+    """A nested generator as deep as it has leaves: it yields its first leaf and then, if there are more, a
+    generator over the rest (bytes / str leaves; a raising leaf raises inside the generator that reaches it)."""
+    for i, (k, x) in enumerate(leaves):
+        if i >= 1:
+            yield _nest(leaves[i:])
+            return
+        if k == 'r':
+            raise _Boom('nested generator failed')
+        yield x
+
+
 def _gen(chunks):
     for k, v in chunks:
         if k == 'b' or k == 't':
             yield v
         elif k == 'n':
-            # a nested iterator; two levels deep when it has more than one chunk
-            def inner(vs):
-                for i, x in enumerate(vs):
-                    if i == 1 and len(vs) > 2:
-                        yield iter(vs[1:])
-                        return
-                    yield x
-            yield inner(list(v))
+            yield _nest(list(v))
         elif k == 'r':
             raise _Boom('handler generator failed')
 
@@ -131,7 +146,7 @@ def make_body(kind, chunks):
     if kind == 'L':
         out = []
         for k, v in chunks:
-            out.append(iter(v) if k == 'n' else v)
+            out.append(_nest(list(v)) if k == 'n' else v)
         return out
     if kind == 'G':
         return _gen(chunks)
@@ -157,51 +172,100 @@ def own_length(case, chunks):
     return byte_len(chunks)
 
 
-class Root(object):
-    @cherrypy.expose
-    def index(self, **kw):
-        c = CUR['case']
-        resp = cherrypy.serving.response
-        gen = CUR['gen']
-        CUR['gen'] = gen + 1
-        kind, chunks = CUR['bodies'][min(gen, len(CUR['bodies']) - 1)]
-        CUR['body'] = (kind, chunks)
-        resp.headers['Content-Type'] = CTS[c.get('ct', 'html')]
-        if c.get('hstream'):
-            resp.stream = True
-        st = c.get('st', '-')
-        if kind == 'X':
-            # one file per worker process (workers are forked after init and share the directory)
-            path = os.path.join(_INIT['tmp'], 'f-%d.%s' % (os.getpid(),
-                                                          'txt' if c.get('ct', 'html') in ('html', 'plain') else 'bin'))
-            data = b''.join(v for k, v in chunks)
-            if _INIT.get('written') != (path, data):
-                with open(path, 'wb') as f:
-                    f.write(data)
-                _INIT['written'] = (path, data)
-            ctype = CTS[c.get('ct', 'html')]
-            if c.get('hcl'):
-                resp.headers['Content-Length'] = str(len(data))
-            if st[0] == 's':
-                resp.status = int(st[1:])
-            return _static.serve_file(path, content_type=ctype)
+STATIC_MTIME = 1000000000          # every file the runner serves carries this modification time
+SF_DATA = b'static tool file: 0123456789abcdefghijklmnopqrstuvwxyz'
+EXT = {'html': 'html', 'plain': 'txt', 'json': 'json', 'octet': 'bin', 'xml': 'xml'}
+
+
+def static_path(case, which):
+    """one file per worker process and purpose (workers are forked after init and share the directory); the
+    extension selects the Content-Type `serve_file` guesses"""
+    return os.path.join(_INIT['tmp'], '%s-%d.%s' % (which, os.getpid(), EXT[case.get('ct', 'html')]))
+
+
+def write_static(path, data):
+    if _INIT.setdefault('written', {}).get(path) != data:
+        with open(path, 'wb') as f:
+            f.write(data)
+        _INIT['written'][path] = data
+    os.utime(path, (STATIC_MTIME, STATIC_MTIME))
+
+
+def _handle():
+    """the page handler of every resource of the test application"""
+    c = CUR['case']
+    resp = cherrypy.serving.response
+    gen = CUR['gen']
+    CUR['gen'] = gen + 1
+    kind, chunks = CUR['bodies'][min(gen, len(CUR['bodies']) - 1)]
+    CUR['body'] = (kind, chunks)
+    resp.headers['Content-Type'] = CTS[c.get('ct', 'html')]
+    if c.get('hstream'):
+        resp.stream = True
+    if c.get('ext', {}).get('te'):
+        resp.headers['Transfer-Encoding'] = 'chunked'
+    st = c.get('st', '-')
+    if kind == 'X':
+        path = static_path(c, 'f')
+        data = b''.join(v for k, v in chunks)
+        write_static(path, data)
+        ctype = CTS[c.get('ct', 'html')]
         if c.get('hcl'):
-            resp.headers['Content-Length'] = str(own_length(c, chunks))
+            resp.headers['Content-Length'] = str(len(data))
         if st[0] == 's':
             resp.status = int(st[1:])
-        elif st == 'i':
-            resp.status = 'bogus status'
-        elif st[0] == 'e':
-            raise cherrypy.HTTPError(int(st[1:]))
-        elif st[0] == 'r':
-            raise cherrypy.HTTPRedirect('/target', int(st[1:]))
-        elif st == 'x':
-            raise _Boom('handler failed')
-        return make_body(kind, chunks)
+        return _static.serve_file(path, content_type=ctype)
+    if c.get('hcl'):
+        resp.headers['Content-Length'] = str(own_length(c, chunks))
+    if st[0] == 's':
+        resp.status = int(st[1:])
+    elif st == 'i':
+        resp.status = 'bogus status'
+    elif st[0] == 'e':
+        if c.get('ext', {}).get('emsg'):
+            raise cherrypy.HTTPError(int(st[1:]), 'custom m\xe9ssage \u20ac <b>&</b> ' + 'x' * 40)
+        raise cherrypy.HTTPError(int(st[1:]))
+    elif st == 'r0':
+        raise cherrypy.HTTPRedirect('/target')
+    elif st[0] == 'r':
+        raise cherrypy.HTTPRedirect('/target', int(st[1:]))
+    elif st == 'x':
+        raise _Boom(chunks[0][1] if kind == 'R' and chunks else 'handler failed')
+    if kind == 'R':
+        return chunks[0][1] if chunks else ''
+    return make_body(kind, chunks)
+
+
+class Sub(object):
+    @cherrypy.expose
+    def index(self, **kw):
+        return _handle()
+
+
+class Rpc(cherrypy._cptools.XMLRPCController):
+    @cherrypy.expose
+    def m(self, *a, **kw):
+        return _handle()
+
+
+class Root(object):
+    sub = Sub()
+    rpc = Rpc()
+
+    @cherrypy.expose
+    def index(self, **kw):
+        return _handle()
 
     @cherrypy.expose
     def target(self):
         return b'target'
+
+
+def xmlrpc_texts(text):
+    """(marshalled result, marshalled fault) for an XML-RPC method that returns / raises with `text`:
+    the marshaller is a parameter of the model"""
+    from xmlrpc.client import dumps, Fault
+    return (dumps((text,), methodresponse=1, encoding='utf-8', allow_none=0), dumps(Fault(1, text)))
 
 
 def _error_page(**kwargs):
@@ -209,7 +273,7 @@ def _error_page(**kwargs):
     if kind == 'str':
         return 'o\xf6ps'
     if kind == 'iter':
-        return iter(['oo', b'', 'p\xe9s'])         # str and bytes chunks: wrapped in UTF8StreamEncoder
+        return (x for x in ['oo', b'', 'p\xe9s'])   # str and bytes chunks: wrapped in UTF8StreamEncoder
     if kind == 'raise':
         raise _Boom('error page failed')            # -> built-in template + appended note
     if kind == 'int':
@@ -219,6 +283,21 @@ def _error_page(**kwargs):
 
 def _failing_error_response():
     raise _Boom('error_response failed')
+
+
+ER_BODY = b'custom error response'
+
+
+def _custom_error_response():
+    """a `request.error_response` that follows the rule: status, body, and no stale Content-Length"""
+    resp = cherrypy.serving.response
+    resp.status = int(CUR['case']['ext']['er'][1:])
+    resp.body = ER_BODY
+    resp.headers.pop('Content-Length', None)
+
+
+def _redirecting_error_response():
+    raise cherrypy.HTTPRedirect('/target', int(CUR['case']['ext']['er'][1:]))
 
 
 def _record_stream():
@@ -273,6 +352,10 @@ def init():
     import atexit
     import shutil
     atexit.register(shutil.rmtree, _INIT['tmp'], True)
+    _INIT['tmplfile'] = os.path.join(_INIT['tmp'], 'error.html')
+    with open(_INIT['tmplfile'], 'w') as f:
+        f.write('<html><body><h1>%(status)s</h1><p>%(message)s</p><pre>%(traceback)s</pre>'
+                '<i>%(version)s</i></body></html>\n')
     # one process-wide cache object (its constructor starts a sweeper thread): cleared per case
     cherrypy.tools.c06probe = cherrypy.Tool('before_finalize', _probe, priority=60)
     cherrypy._cprequest.time = CLOCK
@@ -289,7 +372,30 @@ def make_app(case):
         'hooks.on_end_resource': cherrypy._cprequest.Hook(_record_stream, failsafe=True, priority=99),
         'hooks.before_finalize': cherrypy._cprequest.Hook(_record_etag, priority=76),
     }
+    ext = case.get('ext') or {}
+    if ext.get('av'):
+        conf['tools.autovary.on'] = True             # (before tools.accept: its before_finalize hook is attached
+        #                                               at on_start_resource, where tools.accept may refuse)
+    if ext.get('acc'):
+        conf['tools.accept.on'] = True
+        conf['tools.accept.media'] = 'text/html'
+    if ext.get('rh'):
+        hl = [('Content-Length', str(own_length(case, CUR['bodies'][0][1])))]
+        conf['tools.response_headers.on'] = True
+        conf['tools.response_headers.headers'] = hl
+    if ext.get('jin'):
+        conf['tools.json_in.on'] = True
+    if ext.get('noslash'):
+        conf['tools.trailing_slash.on'] = False
+    if ext.get('sf'):
+        conf['tools.staticfile.on'] = True
+        conf['tools.staticfile.filename'] = static_path(case, 'sf')
+        conf['tools.staticfile.content_types'] = {EXT[case.get('ct', 'html')]: CTS[case.get('ct', 'html')]}
+    if ext.get('tb'):
+        conf['request.show_tracebacks'] = True
     conf['tools.encode.on'] = 'encode' in tools     # (the global default is on)
+    if ext.get('encu') and 'encode' in tools:
+        conf['tools.encode.encoding'] = 'utf-8'
     if 'gzip' in tools:
         conf['tools.gzip.on'] = True
     if 'etags' in tools:
@@ -298,21 +404,32 @@ def make_app(case):
     if 'caching' in tools:
         conf['tools.caching.on'] = True
     if 'expires' in tools:
+        import datetime
+        secs, force = {0: (60, True), 1: (0, True), 2: (datetime.timedelta(seconds=60), False),
+                       3: (0, False)}[int(ext.get('xp', 0))]
         conf['tools.expires.on'] = True
-        conf['tools.expires.secs'] = 60
-        conf['tools.expires.force'] = True
+        conf['tools.expires.secs'] = secs
+        conf['tools.expires.force'] = force
     if 'flatten' in tools:
         conf['tools.flatten.on'] = True
+    if ext.get('sess'):
+        conf['tools.sessions.on'] = True          # (after expires / flatten: sessions.save has their priority)
     if 'stream' in tools:
         conf['response.stream'] = True
     if 'errfails' in tools:
         conf['request.error_response'] = _failing_error_response
+    elif str(ext.get('er', '-'))[0] == 'c':
+        conf['request.error_response'] = _custom_error_response
+    elif str(ext.get('er', '-'))[0] == 'r':
+        conf['request.error_response'] = _redirecting_error_response
     if case['body'].startswith('J:'):
         conf['tools.json_out.on'] = True
     if case.get('hook', '-') != '-':
         conf['tools.c06probe.on'] = True
         conf['tools.c06probe.priority'] = parse_hook(case['hook'])[0]
-    if case.get('page', 'tmpl') != 'tmpl':
+    if case.get('page', 'tmpl') == 'file':
+        conf['error_page.default'] = _INIT['tmplfile']
+    elif case.get('page', 'tmpl') != 'tmpl':
         conf['error_page.default'] = _error_page
     # one Application per process, re-configured per case (every new Application registers two more
     # loggers, and logging.setLevel walks all of them)
@@ -325,18 +442,46 @@ def make_app(case):
     return app
 
 
-def environ_for(req):
+JSON_OK = b'{"a": [1, 2, 3]}'
+JSON_BAD = b'{"a": [1, 2'
+
+
+def environ_for(req, case=None):
+    case = case or {}
+    kindR = str(case.get('body', '')).startswith('R:')
+    path = '/rpc' if kindR else ('/sub' if req.get('ns') else '/')
     env = {
-        'REQUEST_METHOD': req.get('m', 'GET'), 'SCRIPT_NAME': '', 'PATH_INFO': '/',
-        'QUERY_STRING': '', 'SERVER_PROTOCOL': 'HTTP/1.1', 'SERVER_NAME': '127.0.0.1',
+        'REQUEST_METHOD': req.get('m', 'GET'), 'SCRIPT_NAME': '', 'PATH_INFO': path,
+        'QUERY_STRING': '', 'SERVER_PROTOCOL': 'HTTP/1.0' if str(req.get('proto', '11')) == '10' else 'HTTP/1.1',
+        'SERVER_NAME': '127.0.0.1',
         'SERVER_PORT': '80', 'REMOTE_ADDR': '127.0.0.1', 'REMOTE_PORT': '1111',
         'HTTP_HOST': '127.0.0.1', 'wsgi.version': (1, 0), 'wsgi.url_scheme': 'http',
         'wsgi.input': io.BytesIO(b''), 'wsgi.errors': io.StringIO(),
         'wsgi.multithread': False, 'wsgi.multiprocess': False, 'wsgi.run_once': False,
     }
-    if req.get('m') == 'POST':
-        env['CONTENT_LENGTH'] = '0'
-        env['CONTENT_TYPE'] = 'application/x-www-form-urlencoded'
+    if kindR:
+        from xmlrpc.client import dumps
+        body = dumps((), 'm').encode('utf-8')
+        env['wsgi.input'] = io.BytesIO(body)
+        env['CONTENT_LENGTH'] = str(len(body))
+        env['CONTENT_TYPE'] = 'text/xml'
+    elif req.get('m') == 'POST':
+        ent = req.get('ent', '-')
+        if ent == '-':
+            env['CONTENT_LENGTH'] = '0'
+            env['CONTENT_TYPE'] = 'application/x-www-form-urlencoded'
+        else:
+            body = JSON_BAD if ent == 'bad' else JSON_OK
+            env['wsgi.input'] = io.BytesIO(body)
+            env['CONTENT_TYPE'] = 'application/json'
+            if ent != 'nolen':
+                env['CONTENT_LENGTH'] = str(len(body))
+    if not int(req.get('acc', 1)):
+        env['HTTP_ACCEPT'] = 'application/x-nosuch, image/*;q=0.5'
+    elif int(req.get('acc', 1)) == 2:
+        env['HTTP_ACCEPT'] = 'text/*;q=0.8, application/x-nosuch'
+    if int(req.get('ims', 0)):
+        env['HTTP_IF_MODIFIED_SINCE'] = _httputil.HTTPDate(STATIC_MTIME)
     ae = AE[req.get('ae', '-')]
     if ae is not None:
         env['HTTP_ACCEPT_ENCODING'] = ae
@@ -465,7 +610,7 @@ def observe(app, req):
     old_handler = signal.signal(signal.SIGALRM, _on_alarm)
     signal.setitimer(signal.ITIMER_REAL, REQUEST_TIMEOUT)
     try:
-        status, headers, chunks, aborted, first = wsgi_call(app, environ_for(req))
+        status, headers, chunks, aborted, first = wsgi_call(app, environ_for(req, CUR.get('case')))
     except _Timeout:
         timed_out = True
         status, headers, chunks, aborted, first = None, [], [], 'hang', None
@@ -533,6 +678,11 @@ def run_case(case, upto=None, override_last_method=None):
 def _run(case, reqs):
     cherrypy._cache.clear()
     CUR['gen'] = 0
+    if (case.get('ext') or {}).get('sf'):
+        write_static(static_path(case, 'sf'), SF_DATA)
+    kind0, chunks0 = CUR['bodies'][0]
+    if kind0 == 'X':
+        write_static(static_path(case, 'f'), b''.join(v for k, v in chunks0))
     app = make_app(case)
     out = []
     for r in reqs:
@@ -545,6 +695,8 @@ def ranges_for(case, req):
     """The real get_ranges result for a static body (a parameter of the model)."""
     kind, chunks = parse_body(case['body'].split('|')[0])
     size = sum(len(v) for k, v in chunks if k == 'b')
+    if (case.get('ext') or {}).get('sf'):
+        size = len(SF_DATA)
     if req.get('range', '-') == '-':
         return None
     return _httputil.get_ranges(req['range'], size)
